@@ -16,11 +16,21 @@ CHECKS = {
    note="Which strings belong to a class is decided by the generators, not by the spec (DESIGN section 5). Lenient spellings, blank text, NaN/inf for unranged float, lone surrogates are UNSPEC.",
    technique="TLA+ decision table (ContentClass.tla) enumerated by TLC (MC_Content); each table row concretised and replayed through validate.node",
    design="4/C02"),
+ "C03": dict(
+   text="MC_Attr: TLC explores AddAttribute/RemoveAttribute on one node for every rule, reaching every assignment over {absent, each listed value, one unlisted value} per declared attribute x {no foreign, one foreign} (complete: ~1.1k states) and states the exact set of violated constraints. Every state is realised on a node with valid content/children (seeded insertion order with add/remove noise); collecting mode must return exactly that multiset of (code, attribute) and raise nothing; fail-fast raises a rule error iff the set is non-empty; is_required_attribute / allowed_attribute_values must equal the table and raise for a foreign name.",
+   note="Oracle: the declaration in rules.json as generated into RuleTable.tla (not rule.rules_dict). One unlisted value and one foreign name stand for all.",
+   technique="TLA+ state machine over attribute assignments (MC_Attr) explored exhaustively by TLC; every state replayed through validate.node",
+   design="4/C03"),
  "C09": dict(
    text="TLC explores every forest over 4 nodes x 2 names with every edit (append, insert at every index, remove, clear, replace, both shift modes and directions, and the failing variants) and checks the spec's own invariants/action properties; the harness replays every labelled transition, every state's full query table, all paths to depth 3/4 and seeded walks on real Node objects, and TraceForest.tla judges long random histories over 12-20 nodes recorded from the real API. Exhaustive within the bound; beyond it, sampled.",
    note="Trusted: TLC, the projection pi (public properties only), Python list semantics for building states. Assumes the usage constraint of the statement (one parent at a time, no cycles, in-range insert index). Stored parent links of unlisted nodes are not judged.",
    technique="TLA+ spec (Metapype.tla/Forest.tla) model-checked by TLC; logged transition relation replayed into the code; recorded histories trace-validated by TLC (TraceForest.tla)",
    design="4/C09"),
+ "C10": dict(
+   text="MC_Table: TLC evaluates the four clauses as constant expressions over the tables generated from the working tree - complete enumeration of every element-name map entry, every rule (well-formedness per RuleJson.tla), a least-fixpoint satisfiability computation with a witness (child word from earlier layers + accepting content class) for every known element, and every child name of every reachable rule. Every witness tree is built and must pass validate.tree in both modes; get_rule must construct for every name and expose the file's sections; rules_dict must equal the file.",
+   note="Three unknown child names (software, protocol under emlRule; studyAreaDescription under relatedProjectRule) are recorded known findings; acknowledgements was fixed.",
+   technique="TLA+ constant-level clauses over the generated rule table evaluated by TLC (MC_Table); witnesses replayed through validate.tree",
+   design="4/C10"),
  "C12": dict(
    text="TLC explores MC_Copy: 3 templates (every field populated, namespace dicts aliased between parents and children as the API creates them) x copy of any subtree x every single edit (thorough: every pair of edits) on any node of either tree - one mutator per mutable container a node owns; CopyOK (equal, disjoint, fresh registered ids, unlisted root) is an action property of the spec. Every transition is replayed after its genuine history and the full projection of both trees is compared, so any container shared between copy and original is written through by some explored edit and shows up in the other tree.",
    note="Trusted: TLC, projection pi, interning of text. Small-scope: trees of <= 4 nodes; values from a 2-element universe per field.",
